@@ -27,7 +27,7 @@ for m in ${MUTDIR:-/verif/mutants}/*${pat}*.patch; do
   props=$(head -1 "$m" | sed 's/# props: //')
   if ! git -C $ST/repo apply "$m" 2>/dev/null; then echo "$(basename $m): DOES NOT APPLY" | tee -a $ST/results.txt; continue; fi
   for p in $props; do
-    out=$(VERIF_SEED=${VERIF_SEED:-0} ./run $p quick 2>&1); rc=$?
+    out=$(VERIF_SEED=${VERIF_SEED:-0} ./run $p ${ST_TIER:-quick} 2>&1); rc=$?
     orc=$(echo "$out" | grep -m1 '^oracle:' )
     if [ $rc -eq 1 ]; then echo "$(basename $m .patch) $p: caught ($orc) $(echo "$out" | grep -m1 -o 'cases=[0-9]*')" | tee -a $ST/results.txt;
     else echo "$(basename $m .patch) $p: MISSED rc=$rc $(echo "$out" | grep -v KNOWN | tail -2 | cut -c1-200 | tr '\n' ' ')" | tee -a $ST/results.txt; fi
